@@ -9,6 +9,7 @@ import (
 	"go/ast"
 	"go/parser"
 	"os"
+	"strings"
 )
 
 type Known struct {
@@ -56,4 +57,15 @@ func loadKnown() error {
 	return nil
 }
 
-func knownFor(obligation string) *Known { return knownByObl[obligation] }
+func knownFor(obligation string) *Known {
+	if k, ok := knownByObl[obligation]; ok {
+		return k
+	}
+	// patterns: a leading "*" matches any prefix (e.g. any goroutine body)
+	for _, k := range knownList {
+		if strings.HasPrefix(k.Obligation, "*") && strings.HasSuffix(obligation, k.Obligation[1:]) {
+			return k
+		}
+	}
+	return nil
+}
